@@ -79,6 +79,27 @@ def gen_system(rs, ctx, sid, nmax, kmax_exp, flag_present, region=False):
                 spread=spread, n=n, nc=nc, vector_api=bool(nc == 1 and rs.random() < 0.5))
 
 
+def mixture(rs, s):
+    """3..10 right-hand-side columns of very different convergence speed in one call, default x0: columns already solved
+    (zero), columns solved in one step (b = A v, v an eigenvector of P A), and slow (random) ones; norms spread as usual"""
+    n, cplx, A = s["n"], s["cplx"], s["A"]
+    nc = int(rs.integers(3, 11))
+    w, Vv = np.linalg.eig(s["Pd"] @ A)
+    kinds = [str(rs.choice(["zero", "fast", "fast", "slow"])) for _ in range(nc)]
+    kinds[int(rs.integers(0, nc))] = "slow"
+    B = np.zeros((n, nc), dtype=A.dtype)
+    for j, k in enumerate(kinds):
+        if k == "fast":
+            v = Vv[:, int(rs.integers(0, n))]
+            v = v if cplx else np.real(v)
+            B[:, j] = A @ v
+        elif k == "slow":
+            B[:, j] = rs.normal(size=n) + (1j * rs.normal(size=n) if cplx else 0)
+    B = B * 10.0 ** (rs.uniform(-6, 6, size=(1, nc)) + rs.uniform(-8, 2))
+    s.update(B=B, X0=None if rs.random() < 0.7 else np.zeros_like(B), nc=nc, x0kind="none", vector_api=False,
+             spread="mixture zero/fast/slow x%d" % nc)
+
+
 def describe(c, o=None):
     d = dict(n=c["n"], nc=c["nc"], complex=c["cplx"], kappa=c["kappa"], spectrum=c["kind"], precond=c["pk"], x0=c["x0kind"],
              rhs=c["spread"], tol=c["tol"], max_iters=c["max_iters"], vector_api=c["vector_api"], stream=c.get("stream"))
@@ -136,6 +157,9 @@ def run(ctx):
         s = gen_system(rs, ctx, sid, nmax, 3, flag)
         sid += 1
         tol = float(10 ** rs.uniform(-12, -1))
+        if rs.random() < 0.4 and s["n"] >= 3:
+            mixture(rs, s)
+            tol = float(10 ** rs.uniform(-10, -2))
         K = int(rs.choice([2 * s["n"], s["n"], int(rs.integers(0, 2 * s["n"] + 1))]))
         cases.append(dict(s, tol=tol, max_iters=K, stream="stopping"))
     # stream 4: the region of the recorded defect (x0 != 0, ||b|| != 1): model at the probed flag value vs implementation
@@ -144,6 +168,9 @@ def run(ctx):
         sid += 1
         cases.append(dict(s, tol=float(10 ** rs.uniform(-12, -1)), max_iters=int(rs.integers(0, 2 * s["n"] + 1)), stream="x0_region"))
     obs = [L.run_impl(c) for c in cases]
+    for c, o in zip(cases, obs):        # the state one step before the exit, for the "did not stop too late" clause
+        if c["stream"] == "stopping" and o.get("ok") and o["steps"] >= 1:
+            c["prev_obs"] = L.run_impl(dict(c, max_iters=o["steps"] - 1))
     # ---- model vs implementation inside Coq, on the numerically stable cases
     stab = [L.stability(c, x0_unscaled=flag) for c in cases]
     stable = [i for i, (c, o, st) in enumerate(zip(cases, obs, stab))
